@@ -52,7 +52,11 @@ def _state_of(flat, n, key):
     puzzle = flat.reshape((n, n)).astype(jnp.int32)
     at = jnp.argmin(flat)  # the cell holding tile 0
     pos = jnp.stack([at // n, at % n]).astype(jnp.int32)
-    return State(puzzle=puzzle, empty_tile_position=pos, key=key, step_count=jnp.zeros((), jnp.int32))
+    from harness import inject
+    from jumanji.environments.logic.sliding_tile_puzzle.generator import RandomWalkGenerator
+
+    tpl = RandomWalkGenerator(grid_size=n, num_random_moves=0)(key)       # the library's own State, then our fields
+    return inject.state_like(tpl, puzzle=puzzle, empty_tile_position=pos, key=key, step_count=jnp.zeros((), jnp.int32))
 
 
 def _enum_generator(n, episodes, stride):
